@@ -109,6 +109,26 @@ func impureStep(x *Ctx, v ssa.Value, seen map[ssa.Value]bool, depth int) string 
 	case *ssa.TypeAssert:
 		return impureStep(x, t.X, seen, depth+1)
 	case *ssa.Extract:
+		if c, ok := t.Tuple.(*ssa.Call); ok {
+			if h := c.Call.StaticCallee(); h != nil && len(h.Blocks) > 0 && x.P.IsNewHelper(h) {
+				// result #i of a new helper of the package: what it returns there must be made of its parameters
+				for _, b := range h.Blocks {
+					for _, in := range b.Instrs {
+						if r, ok := in.(*ssa.Return); ok && t.Index < len(r.Results) {
+							if w := impureStep(x, r.Results[t.Index], seen, depth+1); w != "" {
+								return "helper " + load.ShortName(h) + ": " + w
+							}
+						}
+					}
+				}
+				for _, a := range c.Call.Args {
+					if w := impureStep(x, a, seen, depth+1); w != "" {
+						return w
+					}
+				}
+				return ""
+			}
+		}
 		return impureStep(x, t.Tuple, seen, depth+1)
 	case *ssa.Convert:
 		return impureStep(x, t.X, seen, depth+1)
